@@ -20,15 +20,14 @@ Fixpoint loop {S : Type} (cnt : nat) (j step : Z) (body : Z -> S -> S) (s : S) :
 Definition trip (a b : Z) : nat := Z.to_nat (b - a + 1).          (* for (j=a; j<=b; ++j) *)
 
 (** *** search_(n, x, t, l): l := 0 if t < x(1), n if t >= x(n), else x(l) <= t < x(l+1); hunt from the guess l, then bisect *)
-Definition bisect (x : Z -> T) (t : T) (fuel : nat) (il iu : Z) : Z :=
-  (fix go (fuel : nat) (il iu : Z) : Z :=
-     let l := (il + iu) / 2 in                     (* L4 *)
-     match fuel with
-     | O => l
-     | Datatypes.S f => if iu - il <=? 1 then l
-                        else if nltb K t (x l) then go f il l     (* L3: iu = l *)
-                        else go f l iu                            (* il = l *)
-     end) fuel il iu.
+Fixpoint bisect (x : Z -> T) (t : T) (fuel : nat) (il iu : Z) {struct fuel} : Z :=
+  let l := (il + iu) / 2 in                       (* L4 *)
+  match fuel with
+  | O => l
+  | Datatypes.S f => if iu - il <=? 1 then l
+                     else if nltb K t (x l) then bisect x t f il l     (* L3: iu = l *)
+                     else bisect x t f l iu                            (* il = l *)
+  end.
 Definition search (n : Z) (x : Z -> T) (t : T) (l0 : Z) : Z :=
   if nltb K t (x 1) then 0
   else if nleb K (x n) t then n
